@@ -1,6 +1,6 @@
 (* Entry points of the extracted model: one line in, one line out. *)
 From Coq Require Import List ZArith NArith Bool String.
-From WF Require Import Base.Bytes Base.Sexp Run.C09 Run.Lang Run.C08 Run.C16 Run.C10 Run.C15 Run.C19 Run.C11 Run.C20 Run.C06 Run.C14 Run.C12 Run.C18 Run.C17.
+From WF Require Import Base.Bytes Base.Sexp Run.C09 Run.Lang Run.C08 Run.C16 Run.C10 Run.C15 Run.C19 Run.C11 Run.C20 Run.C06 Run.C14 Run.C12 Run.C18 Run.C17 Run.C07.
 Import ListNotations.
 Open Scope string_scope.
 
@@ -15,7 +15,7 @@ Definition run_case (spec : bool) (c : sexp) : sexp :=
                         run_C11 spec head args; run_C20 spec head args;
                         run_C06 spec head args; run_C14 spec head args;
                         run_C12 spec head args; run_C18 spec head args;
-                        run_C17 spec head args] with
+                        run_C17 spec head args; run_C07 spec head args] with
       | Some r => r
       | None => bad_case
       end
